@@ -3,4 +3,8 @@ import enginecheck as ec
 from props import engcommon
 LEVEL = 'proof'; TRUSTED = engcommon.TRUSTED_ENGINE; ASSUMPTIONS = engcommon.ASSUMPTIONS_ENGINE
 def run(ctx):
-    engcommon.run_engine_property(ctx, 'C01', [('c01', None)], faults=0.3)
+    import random
+    def extra(ctx):
+        rnd = random.Random(ctx.seed + 77)
+        return [ec.motif_deps_swap(rnd, 'C01_swap_%d' % i) for i in range(60)]
+    engcommon.run_engine_property(ctx, 'C01', [('c01', None)], faults=0.3, extra_hists=extra)
